@@ -37,6 +37,7 @@ import (
 	"strconv"
 	"strings"
 	"sync"
+	"syscall"
 	"time"
 
 	intoto "github.com/in-toto/in-toto-golang/in_toto"
@@ -467,6 +468,7 @@ func caseVariant(b []byte, mixed bool) ([]byte, string) {
 type fileIn struct {
 	Name      string `json:"name"`
 	Content   string `json:"content_b64"`
+	Special   string `json:"special,omitempty"`        // "symlink:<target>" | "fifo" | "socket" | "mode000" (content ignored unless mode000)
 	ContentGz string `json:"content_gz_b64,omitempty"` // large files: gzip, then base64 (content_b64 is empty)
 	Label     string `json:"label"`
 }
@@ -487,6 +489,7 @@ type item struct {
 	content []byte
 	label   string
 	honest  string // key id that must be counted for the step ("" = must never be counted)
+	special string // not a regular file: "symlink:<target>" | "fifo" | "socket" | "mode000"
 }
 
 type stepShape struct {
@@ -776,6 +779,29 @@ func (w *world) bundleItem(st stepShape, sc *scenario, f *certFn) *item {
 	return it
 }
 
+// unreadableItems: directory entries matching the step's link glob that cannot be read as metadata
+func unreadableItems(st stepShape, r *lib.Rng) []*item {
+	nm := func() string { return linkName(st.name, fakeID(r)) }
+	a, b := nm(), nm()
+	out := []*item{
+		{name: nm(), label: "unreadable-symlink-to-itself", special: "symlink:SELF"},
+		{name: a, label: "unreadable-symlink-loop-of-two", special: "symlink:" + b},
+		{name: b, label: "unreadable-symlink-loop-of-two", special: "symlink:" + a},
+		{name: nm(), label: "unreadable-symlink-to-directory", special: "symlink:."},
+		{name: nm(), label: "unreadable-dangling-symlink", special: "symlink:does-not-exist"},
+		{name: nm(), label: "directory"},
+		{name: nm(), label: "unreadable-fifo", special: "fifo"},
+		{name: nm(), label: "unreadable-socket", special: "socket"},
+		{name: nm(), label: "unreadable-empty-file", content: []byte{}},
+		{name: nm(), label: "unreadable-garbage", content: []byte("\x00\x01{{not metadata")},
+	}
+	out[0].special = "symlink:" + out[0].name
+	if os.Geteuid() != 0 { // root reads a mode-000 file
+		out = append(out, &item{name: nm(), label: "unreadable-mode-000", content: []byte("{}"), special: "mode000"})
+	}
+	return out
+}
+
 func makers() []maker {
 	leafItem := func(name, label string) maker {
 		return maker{label, func(w *world, sc *scenario, st stepShape, r *lib.Rng) *item {
@@ -1039,6 +1065,16 @@ func makers() []maker {
 			return strayOf(st, honest, r.Intn(3), []int{9, 10, 16, 33, 64}[r.Intn(5)])
 		}},
 		// a directory whose name matches the glob
+		// an entry of the link directory matching the glob that cannot be read as metadata (symlink loops, special files ...)
+		{"unreadable-entry", func(w *world, sc *scenario, st stepShape, r *lib.Rng) *item {
+			us := unreadableItems(st, r)
+			k := r.Intn(len(us))
+			if us[k].label == "unreadable-symlink-loop-of-two" {
+				sc.addItem(st, us[1])
+				return us[2]
+			}
+			return us[k]
+		}},
 		{"directory", func(w *world, sc *scenario, st stepShape, r *lib.Rng) *item {
 			return &item{name: linkName(st.name, fakeID(r)), content: nil, label: "directory"}
 		}},
@@ -1353,6 +1389,39 @@ func witnessScenarios(w *world, r *lib.Rng) []*scenario {
 			sc.addItem(st, w.respeltKeyItem(st, sc, a))
 			if v < 2 {
 				sc.addItem(st, w.keyItem(st, sc, b, "key-authorised"))
+			}
+			out = append(out, sc)
+		}
+	}
+	// enough honest links for every step, and beside them entries matching the link glob that cannot be read as metadata:
+	// the honest links satisfy the threshold, the junk is never counted
+	{
+		probe := unreadableItems(stepShape{name: "build"}, r)
+		for v := 0; v <= len(probe)+1; v++ {
+			sc := &scenario{klass: "unreadable-entries-beside-honest-links", defined: map[int]bool{2: true, 7: true}, items: map[string][]item{}, roots: "root", interIn: "layout"}
+			s1 := stepShape{name: "build", threshold: 2, pubkeys: []int{2, 7}, ccs: []intoto.CertificateConstraint{ccAll()}}
+			s2 := stepShape{name: "test", threshold: 1, pubkeys: []int{7}}
+			sc.steps = []stepShape{s1}
+			if v%3 == 2 || v > len(probe) {
+				sc.steps = []stepShape{s1, s2}
+				sc.addItem(s2, w.keyItem(s2, sc, 7, "key-authorised"))
+			}
+			sc.addItem(s1, w.keyItem(s1, sc, 2, "key-authorised"))
+			sc.addItem(s1, w.certItem(s1, sc, w.leaves[honestCerts[v%len(honestCerts)]], "cert"))
+			target := sc.steps[len(sc.steps)-1]
+			us := unreadableItems(target, r)
+			switch {
+			case v < len(us) && us[v].label == "unreadable-symlink-loop-of-two":
+				sc.addItem(target, us[1])
+				sc.addItem(target, us[2])
+			case v < len(us):
+				sc.addItem(target, us[v])
+			default: // all of them, in every step
+				for _, st := range sc.steps {
+					for _, u := range unreadableItems(st, r) {
+						sc.addItem(st, u)
+					}
+				}
 			}
 			out = append(out, sc)
 		}
@@ -1717,6 +1786,7 @@ func (w *world) buildInput(sc *scenario) input {
 			if it.label == "directory" {
 				f.Content = "DIR"
 			}
+			f.Special = it.special
 			in.Files = append(in.Files, f)
 		}
 	}
@@ -1734,6 +1804,23 @@ func materialise(in input, dir string) {
 		p := filepath.Join(dir, f.Name)
 		if f.Content == "DIR" {
 			os.MkdirAll(p, 0o755)
+			continue
+		}
+		switch {
+		case strings.HasPrefix(f.Special, "symlink:"):
+			if err := os.Symlink(strings.TrimPrefix(f.Special, "symlink:"), p); err != nil {
+				panic(err)
+			}
+			continue
+		case f.Special == "fifo":
+			if err := syscall.Mkfifo(p, 0o644); err != nil {
+				panic(err)
+			}
+			continue
+		case f.Special == "socket":
+			if err := syscall.Mknod(p, syscall.S_IFSOCK|0o644, 0); err != nil {
+				panic(err)
+			}
 			continue
 		}
 		b, err := base64.StdEncoding.DecodeString(f.Content)
@@ -1755,6 +1842,9 @@ func materialise(in input, dir string) {
 		}
 		if err := os.WriteFile(p, b, 0o644); err != nil {
 			panic(err)
+		}
+		if f.Special == "mode000" {
+			os.Chmod(p, 0)
 		}
 	}
 }
